@@ -171,6 +171,16 @@ pub fn solve_events(case: &Value, entries: &[&str], out: &mut Vec<Value>) {
         // return within WATCHDOG is recorded as a timeout (the thread is abandoned)
         let lmc = lm.clone();
         let entry_s = entry.to_string();
+        let text_lm: Option<Result<rooc::LinearModel, String>> = if *entry == "text_clarabel" {
+            case.get("text").and_then(|t| t.as_str()).map(|t| {
+                rooc::RoocParser::new(t.to_string())
+                    .parse_and_transform(vec![], &indexmap::IndexMap::new())
+                    .and_then(|m| rooc::Linearizer::linearize(m).map_err(|e| e.to_string()))
+            })
+        } else {
+            None
+        };
+        let text_lm_obs = text_lm.clone();
         let (tx, rx) = std::sync::mpsc::channel();
         std::thread::Builder::new()
             .stack_size(64 << 20)
@@ -182,11 +192,43 @@ pub fn solve_events(case: &Value, entries: &[&str], out: &mut Vec<Value>) {
                     "real_microlp" => rooc::solve_real_lp_problem_micro_lp(lmr).map(|s| solution_obs(&s)),
                     "clarabel" => rooc::solve_real_lp_problem_clarabel(lmr).map(|s| solution_obs(&s)),
                     "simplex" => rooc::solve_real_lp_problem_slow_simplex(lmr, 1000).map(|s| solution_obs(&s)),
+                    // the same model as source text through the front end and the linearizer (case field `text`)
+                    "text_clarabel" => match text_lm.as_ref() {
+                        Some(Ok(m)) => rooc::solve_real_lp_problem_clarabel(m).map(|s| solution_obs(&s)),
+                        Some(Err(e)) => Err(rooc::SolverError::Other(format!("front end: {e}"))),
+                        None => Err(rooc::SolverError::Other("no text".to_string())),
+                    },
                     other => panic!("entry {other}"),
                 }));
                 let _ = tx.send(res.map_err(|_| ()));
             })
             .unwrap();
+        // for the text door: the variable ranges of the COMPILED linear model (the compiler may have
+        // tightened them by bound inference) as bounds in the case's own format
+        if let Some(Ok(m)) = &text_lm_obs {
+            let b = |x: f64, neg_inf: bool| {
+                if x.is_infinite() {
+                    json!({"inf": if neg_inf { -1 } else { 1 }, "n": 0, "d": 1})
+                } else {
+                    let o = num_obs(x);
+                    if o["snap"] == json!(true) { json!({"inf":0,"n":o["n"],"d":o["d"]}) } else { json!({"inf":0,"n":0,"d":0}) }
+                }
+            };
+            ev["cvars"] = m
+                .variables()
+                .iter()
+                .map(|n| {
+                    let (k, lo, hi) = match m.domain().get(n).unwrap().get_type() {
+                        rooc::VariableType::Boolean => ("bool", 0.0, 1.0),
+                        rooc::VariableType::IntegerRange(a, b) => ("int", *a as f64, *b as f64),
+                        rooc::VariableType::Real(a, b) => ("real", *a, *b),
+                        rooc::VariableType::NonNegativeReal(a, b) => ("nnreal", a.max(0.0), *b),
+                    };
+                    json!({"name": n, "kind": k, "lo": b(lo, true), "hi": b(hi, false)})
+                })
+                .collect();
+            ev["crows"] = json!(m.constraints().len());
+        }
         let res = match rx.recv_timeout(std::time::Duration::from_secs(WATCHDOG_S)) {
             Ok(r) => r,
             Err(_) => {
